@@ -144,12 +144,12 @@ Tol(a, b, t, abs) == IAdd(IAdd(FxShr(IMax(IAbs(a), IAbs(b)), RelBits(t)), abs), 
 (* TOLERANCE HwbAbs: the HWB forms store b = 1 - v and w = (1 - s) v, so the image v = 1 - b carries an ABSOLUTE
    error of half an ulp of 1 however small v is, and the chroma v - w one ulp of 1; the ends' images are
    recomputed by the code with the same absolute errors.  v^3: 3 v^2 * (u/2) per end and for the sample,
-   < 5 u in total; 2^-(Prec-6) = 64 u. *)
-HwbHeightAbs(node, t) == IF node \in HwbNodes THEN FxEps(Prec(t) - 6) ELSE FxZero
+   < 5 u in total; 2^-(Prec-5) = 32 u (largest seen: 1.6 u). *)
+HwbHeightAbs(node, t) == IF node \in HwbNodes THEN FxEps(Prec(t) - 5) ELSE FxZero
 (* chroma^2 against v^2 * (...): 2 * chroma * (2 u) <= 4 u v for the sample, plus the ends' saturation
-   (s = 1 - w / v: absolute error about 2 u / v_end, ends are driven with v_end >= 1/4): 2^-(Prec-8) = 256 u
-   times the denominators. *)
-HwbSatAbs(node, t) == IF node \in HwbNodes THEN FxEps(Prec(t) - 8) ELSE FxZero
+   (s = 1 - w / v: absolute error about 2 u / v_end, ends are driven with v_end >= 1/4, i.e. 8 u): 2^-(Prec-6)
+   = 64 u, times the denominators (largest seen: 1.8 u). *)
+HwbSatAbs(node, t) == IF node \in HwbNodes THEN FxEps(Prec(t) - 6) ELSE FxZero
 
 (* TOLERANCE HueTol: the sampler normalises the low end into [0, 360) (C11: within a few ulps of 360),
    computes scale = high - low, r * scale + low (values up to 720: ulp 2^(10-Prec)); the standard sampler
@@ -276,13 +276,17 @@ Verdict(dist, node, t, al, lo, hi, VS, out) ==
       hhi == IF dist = "standard" THEN D360 ELSE hi[hi_]
       huedom == hi_ # 0 /\ (dist = "standard" \/ HueDomain(hlo, hhi))
       f == Frame(node, t, x, a, b)
+      (* the volume clause with the hue (without it for ends outside the hue domain), and the arc *)
+      volumeOk == ~vol \/ (IF huedom THEN \E V \in VS : VolumeAll(t, f, out[hi_], hlo, hhi, V)
+                                     ELSE \E V \in VS : VolumeNoHue(t, f, V))
+      arcOk == ~(dist = "uniform" /\ huedom) \/ OnArc(t, out[hi_], hlo, hhi)
   IN IF dist = "standard" /\ ~StandardWithin(node, t, al, out) THEN "standard-out-of-bounds"
      ELSE IF dist = "uniform" /\ ~UniformBetween(node, t, al, out, lo, hi, f) THEN "uniform-component-outside-ends"
+     ELSE IF volumeOk /\ arcOk THEN "ok"
+     (* which clause failed: the ones about the hue are named last *)
      ELSE IF vol /\ ~(\E V \in VS : VolumeNoHue(t, f, V)) THEN "not-volume-uniform"
-     ELSE IF dist = "uniform" /\ huedom /\ ~OnArc(t, out[hi_], hlo, hhi) THEN "uniform-hue-off-arc"
-     ELSE IF vol /\ huedom /\ ~(\E V \in VS : VolumeAll(t, f, out[hi_], hlo, hhi, V))
-          THEN "hue-not-uniform-on-arc"
-     ELSE "ok"
+     ELSE IF ~arcOk THEN "uniform-hue-off-arc"
+     ELSE "hue-not-uniform-on-arc"
 
 -----------------------------------------------------------------------------
 (* The machine.  A sampler has no state of its own (the generator is the caller's); `last` records the last
